@@ -397,7 +397,17 @@ fn cases(mode: &str) -> Vec<Case> {
                             return None;
                         }
                         let (a, b) = (replace_numbers_in_text(&t, &l, 0.0), replace_numbers_in_text(&v, &l, 0.0));
-                        if a.to_lowercase() != b.to_lowercase() { Some(format!("{:?} -> {:?} but {:?} -> {:?}", t, a, v, b)) } else { None }
+                        if a.to_lowercase() != b.to_lowercase() { return Some(format!("{:?} -> {:?} but {:?} -> {:?}", t, a, v, b)); }
+                        // the validator too, also with everything in capitals
+                        let up = t.to_uppercase();
+                        for variant in [v.clone(), up] {
+                            if variant.to_lowercase() != t { continue; }
+                            let (x, y) = (text2digits(&t, &l), text2digits(&variant, &l));
+                            if format!("{:?}", x).to_lowercase() != format!("{:?}", y).to_lowercase() {
+                                return Some(format!("text2digits({:?}) = {:?} but text2digits({:?}) = {:?}", t, x, variant, y));
+                            }
+                        }
+                        None
                     }),
                 });
             }
